@@ -10,8 +10,9 @@ from .c06 import spec_price
 DAY = 86400
 
 
-def csv_market(rng, assets, d0, d1, exact, late=None):
-    """daily bars for every weekday in [d0 - 3, d1 + 3]; late: asset -> first day with data"""
+def csv_market(rng, assets, d0, d1, exact, late=None, holes=None):
+    """daily bars for every weekday in [d0 - 3, d1 + 3]; late: asset -> first day with data;
+    holes: asset -> set of days whose row is missing from that asset's file (a per-asset holiday)"""
     out = {}
     for a in assets:
         p = bl.dy(rng, 8, 250, 8)
@@ -31,6 +32,8 @@ def csv_market(rng, assets, d0, d1, exact, late=None):
                 o = max(1.0, p * (1 + rng.uniform(-0.02, 0.02)))
                 c = max(1.0, o * (1 + rng.uniform(-0.02, 0.02)))
             p = c
+            if holes and d in holes.get(a, ()):
+                continue
             rows.append([d, o, c, c])
             if rng.random() < 0.04:
                 rows[-1][rng.choice([1, 2])] = None
@@ -73,6 +76,9 @@ def table_of_csv(c):
         snap = []
         for name, bars in c['market']['assets'].items():
             v = spec_price(bars, c['market'].get('adjust', False), t)
+            if v is None and c['market'].get('backup'):
+                # the handler asks the next data source when the first one has no price
+                v = spec_price(c['market']['backup'][name], c['market'].get('adjust', False), t)
             if v is not None:
                 snap.append(['EQ:' + name, v])
         rows.append([t, snap])
@@ -126,10 +132,20 @@ class C07(Prop):
                                 nxt += 1
                             late = dict((a, nxt) for a in list(late))
                             c['_force_T'] = R
-                c['market'] = csv_market(rng, c['assets'], d0, d1, c['exact'], late)
-                c['stream'] += ':csv'
+                holes = None
+                inner = sl.bdays_between(d0 + 1, d1 - 1)
+                if late is None and inner and rng.random() < 0.5:
+                    # interior business days missing from one asset's file (the engine still has events then)
+                    a = rng.choice(c['assets'])
+                    holes = {a: set(rng.sample(inner, min(len(inner), rng.randint(1, 3))))}
+                    c['_hole_T'] = rng.choice(sorted(holes[a]))
+                c['market'] = csv_market(rng, c['assets'], d0, d1, c['exact'], late, holes)
+                c['stream'] += ':csv' + (':holes' if holes else '')
             days = sl.bdays_between(d0, d1)
             c['T'] = rng.choice(days) if days else d0
+            if c.get('_hole_T') is not None and rng.random() < 0.7:
+                c['T'] = c['_hole_T']
+            c.pop('_hole_T', None)
             if c['market']['kind'] == 'csv' and late and rng.random() < 0.6:
                 # cut right where an asset's data begin: the day before, the first day, the day after
                 L = list(late.values())[0]
